@@ -639,3 +639,63 @@ def enumerate_paths(body: typing.List[ast.stmt], limit: int = 512) -> typing.Lis
         return cur
 
     return run(body, [Path()])
+
+
+# ---- refactoring-tolerant views -----------------------------------------------------------------------------------------
+def private_helpers(px: "PyIndex", f: "Func", depth: int = 1) -> typing.List["Func"]:
+    """Private helper functions/methods (`self._x(...)`, `cls._x(...)`, module-level `_x(...)`) that f calls, `depth` levels deep.
+    Rules that look for a statement 'in f' accept it in such a helper too: extracting part of a function into a private helper
+    of the same class/module is a behaviour-preserving refactoring."""
+    out: typing.List[Func] = []
+    seen = {id(f)}
+    frontier = [f]
+    for _ in range(depth):
+        nxt = []
+        for g in frontier:
+            for c in ast.walk(g.node):
+                if not isinstance(c, ast.Call):
+                    continue
+                name = c.func.attr if isinstance(c.func, ast.Attribute) else (c.func.id if isinstance(c.func, ast.Name) else "")
+                if not name.startswith("_") or name.startswith("__"):
+                    continue
+                if isinstance(c.func, ast.Attribute) and not (isinstance(c.func.value, ast.Name) and c.func.value.id in ("self", "cls")):
+                    continue
+                for h in px.resolve_call(g, c, by_name_fallback=False):
+                    if id(h) not in seen and h.module is g.module:
+                        seen.add(id(h))
+                        out.append(h)
+                        nxt.append(h)
+        frontier = nxt
+    return out
+
+
+def walk_with_helpers(px: "PyIndex", f: "Func", depth: int = 1):
+    """ast.walk over f and over its private helpers"""
+    yield from ast.walk(f.node)
+    for h in private_helpers(px, f, depth):
+        yield from ast.walk(h.node)
+
+
+def call_keywords(func_node: ast.AST, call: ast.Call) -> typing.Dict[str, ast.AST]:
+    """keyword arguments of a call, with `**name` expanded when `name` is a local bound once to a dict display / dict(...) call
+    (plus later `name[key] = value` stores)"""
+    out = {k.arg: k.value for k in call.keywords if k.arg is not None}
+    for k in call.keywords:
+        if k.arg is None and isinstance(k.value, ast.Name):
+            vals = [n for n in ast.walk(func_node) if isinstance(n, (ast.Assign, ast.AnnAssign)) and
+                    any(isinstance(t, ast.Name) and t.id == k.value.id for t in (n.targets if isinstance(n, ast.Assign) else [n.target]))]
+            if len(vals) == 1 and vals[0].value is not None:
+                v = vals[0].value
+                if isinstance(v, ast.Dict):
+                    for kk, vv in zip(v.keys, v.values):
+                        if isinstance(kk, ast.Constant) and isinstance(kk.value, str):
+                            out.setdefault(kk.value, vv)
+                elif isinstance(v, ast.Call) and isinstance(v.func, ast.Name) and v.func.id == "dict":
+                    for kw in v.keywords:
+                        if kw.arg is not None:
+                            out.setdefault(kw.arg, kw.value)
+            for n in ast.walk(func_node):
+                if isinstance(n, ast.Assign) and len(n.targets) == 1 and isinstance(n.targets[0], ast.Subscript) and isinstance(n.targets[0].value, ast.Name) \
+                        and n.targets[0].value.id == k.value.id and isinstance(n.targets[0].slice, ast.Constant) and isinstance(n.targets[0].slice.value, str):
+                    out.setdefault(n.targets[0].slice.value, n.value)
+    return out
